@@ -2,6 +2,7 @@ import Hive.Proofs.KVConcMore
 import Hive.Proofs.KVConcHist
 import Hive.Proofs.KVLin
 import Hive.Gen.C05_Skel
+import Hive.Gen.C05_Src
 /-!
 # C05 — KVStore operations are linearizable under concurrent use
 
@@ -122,18 +123,20 @@ theorem C05_iterate_snapshot (scripts : List (List COp)) (c : Cfg Shared Thread)
     simpa [evOk, DOp.apply, replay] using this
 
 /-- **Well-locked (the model-level form of data-race freedom).**  In every reachable
-configuration a goroutine about to access the shared map holds the map's lock — in write mode if
-the access writes; a write-mode holder is the only holder, a read-mode holder excludes writers. -/
+configuration a goroutine about to access the shared map (every access except the ghost point `nop`
+of the flag-only calls WithRealm / Batched / Flush, which touches nothing) holds the map's lock — in
+write mode if the access writes; a write-mode holder is the only holder, a read-mode holder excludes
+writers. -/
 theorem C05_well_locked (scripts : List (List COp)) (s : Shared) (pre post : List Thread) (t : Thread)
     (hr : Reach sys (initCfg scripts) (s, pre ++ t :: post)) (a : DOp) (rest : List Instr)
-    (hcode : t.code = .eff a :: rest) :
+    (hcode : t.code = .eff a :: rest) (htm : a.touchesMap = true) :
     (a.isWrite = true → (LockId.map, true) ∈ t.held) ∧
     ((LockId.map, true) ∈ t.held ∨ (LockId.map, false) ∈ t.held) ∧
     ((LockId.map, true) ∈ t.held → ∀ u ∈ pre ++ post, ∀ b, (LockId.map, b) ∉ u.held) ∧
     ((LockId.map, false) ∈ t.held → ∀ u ∈ pre ++ post, (LockId.map, true) ∉ u.held) := by
   have hl := linv_reach hr
   have ht := hl.tinv t (List.mem_append_right _ (List.mem_cons_self ..))
-  obtain ⟨h1, h2⟩ := eff_holds_lock ht hcode
+  obtain ⟨h1, h2⟩ := eff_holds_lock ht hcode htm
   obtain ⟨h3, h4⟩ := exclusion hl .map
   exact ⟨h1, h2, h3, h4⟩
 
@@ -159,6 +162,59 @@ with writer-preferring RWMutexes. -/
 theorem C05_deadlock_free (scripts : List (List COp)) (c : Cfg Shared Thread)
     (hr : Reach sys (initCfg scripts) c) : ¬ Deadlock sys Thread.finished c :=
   not_deadlock (linv_reach hr)
+
+/-- **A lock nobody uses is free** — in particular the lock of a view or batch object that has just been
+created.  In every reachable configuration a `LockId` that no goroutine holds (in either mode) and no goroutine
+waits for inside `Lock()` is in the state of a zero-valued `sync.RWMutex`: no writer, no readers, no pending
+writer.  `WithRealm` / `Batched` return a NEW object (`C05_source_fresh_objects`: a struct literal that does not
+mention the embedded mutex), i.e. a `LockId` not used before; this theorem is why the first call through it
+cannot block on a phantom holder (a copied lock word would break exactly this). -/
+theorem C05_unused_lock_is_free (scripts : List (List COp)) (c : Cfg Shared Thread)
+    (hr : Reach sys (initCfg scripts) c) (l : LockId)
+    (hheld : ∀ t ∈ c.2, ∀ b, (l, b) ∉ t.held)
+    (hwait : ∀ t ∈ c.2, ¬ (t.waiting = true ∧ t.code.head? = some (.lock l))) :
+    c.1.locks l = RW.free := by
+  have hl := linv_reach hr
+  have hw : total (hW l) c.2 = 0 := total_zero _ _ (fun u hu => List.count_eq_zero.mpr (hheld u hu true))
+  have hrd : total (hR l) c.2 = 0 := total_zero _ _ (fun u hu => List.count_eq_zero.mpr (hheld u hu false))
+  have hp : total (hP l) c.2 = 0 := total_zero _ _ (fun u hu => by simp [hP, hwait u hu])
+  have h1 := hl.w l
+  have h2 := hl.r l
+  have h3 := hl.p l
+  rw [hw] at h1; rw [hrd] at h2; rw [hp] at h3
+  have h1' : (c.1.locks l).writer = false := by
+    cases hh : (c.1.locks l).writer with
+    | false => rfl
+    | true => rw [hh] at h1; simp [b2n] at h1
+  cases hx : c.1.locks l with
+  | mk w r p =>
+    rw [hx] at h1' h2 h3
+    simp only at h1' h2 h3
+    simp [RW.free, h1', h2, h3]
+
+/-- The hypotheses of `C05_unused_lock_is_free` are satisfiable: initially every lock is unused. -/
+example (scripts : List (List COp)) (l : LockId) : (initCfg scripts).1.locks l = RW.free :=
+  C05_unused_lock_is_free scripts _ (Reach.refl _) l
+    (fun t ht b => by intro hm; have hh := initThreads_mem ht; obtain ⟨n, sc, rfl, _⟩ := hh; simp [initThread] at hm)
+    (fun t ht => by have hh := initThreads_mem ht; obtain ⟨n, sc, rfl, _⟩ := hh; simp [initThread])
+
+/-- **Flag-only calls** (`WithRealm`, `WithExtendedRealm`, `Batched`, `Flush`) and **batch-local calls** (batch
+`Set` / `Delete` / `Cancel`): the former load the closed flag and do nothing else — their only instruction besides
+the load is the ghost point `nop`, which leaves the map as it is, answers `ok` and involves no lock; the latter take
+and release the batch mutex and neither load the flag nor touch the map.  All other theorems of this file
+(`C05_linearizable`, `C05_linearizable_close`, `C05_deadlock_free`, …) quantify over scripts containing them. -/
+theorem C05_flag_only_calls (r : Bytes) (b : Nat) (m : AList) :
+    compile (.withRealm r) = [.check, .eff .nop] ∧ compile .batched = [.check, .eff .nop] ∧
+    compile .flush = [.check, .eff .nop] ∧ DOp.nop.apply m = (m, .ok) ∧ DOp.nop.isWrite = false ∧
+    compile (.batchOp b) = [.lock (.batch b), .unlock (.batch b)] ∧ effsOf (compile (.batchOp b)) = [] :=
+  ⟨rfl, rfl, rfl, rfl, rfl, rfl, rfl⟩
+
+/-- A flag-only call on the recorded-history side: the contract (`hstep`) answers `closed` after `Close` and `ok`
+before, and never changes the state — what `drv_c05` checks for the `flag` lines (WithRealm / Flush of the harness). -/
+theorem C05_flag_call_contract (st : SeqSt) :
+    Lin.hstep st (.data .nop) = (st, if st.closed then .closed else .ok) := by
+  obtain ⟨m, c⟩ := st
+  cases c <;> simp [Lin.hstep, DOp.apply]
 
 /-- Every call is compiled to well-bracketed code: locks acquired in the order batch < view < map
 and never twice, every release matches, the flag is loaded with no lock held, every access happens
@@ -286,6 +342,99 @@ theorem C05_skeleton_map_iterate :
       ["rlock s", "for{", "if{", "}if", "}for", "runlock s", "for{", "}for", "for{", "if{", "break", "}if", "}for"] := by
   decide
 
+/-- The flag-only calls: one `closed.Load()`, no lock operation (what `flagCode` mirrors); `WithExtendedRealm` is
+`WithRealm` on the concatenated realm. -/
+theorem C05_skeleton_flag_calls :
+    skel_mapDB_WithRealm = ["call s.closed.Load", "if{", "return", "}if", "return"] ∧
+    skel_mapDB_WithExtendedRealm = ["helper WithRealm", "return"] ∧
+    skel_mapDB_Flush = ["call s.closed.Load", "if{", "return", "}if", "return"] ∧
+    skel_mapDB_Batched = ["call s.closed.Load", "if{", "return", "}if", "return"] := by decide
+
+/-- Batch `Set` / `Delete` / `Cancel`: the batch mutex around the whole body, no flag load (what `batchCode` mirrors;
+"helper delete" is Go's builtin `delete` on the batch's private maps). -/
+theorem C05_skeleton_batch_ops :
+    skel_batchedMutations_Set = ["lock b", "defer unlock b", "helper delete", "return"] ∧
+    skel_batchedMutations_Delete = ["lock b", "defer unlock b", "helper delete", "return"] ∧
+    skel_batchedMutations_Cancel = ["lock b", "defer unlock b"] := by decide
+
+/-- The lock identities of the model: a view object embeds ONE `sync.RWMutex` (`LockId.view`) and *points* to the shared
+map and the shared flag; the map object embeds ONE `sync.RWMutex` (`LockId.map`) next to the Go map; a batch embeds ONE
+`sync.Mutex` (`LockId.batch`) and points to its view and the flag.  (A second mutex field, a map held by value, a flag
+held by value would all break this.) -/
+theorem C05_skeleton_type_locks :
+    skel_type_mapDB = ["struct", "embedded sync.RWMutex", "m *syncedKVMap", "closed *atomic.Bool", "realm []byte"] ∧
+    skel_type_syncedKVMap = ["struct", "embedded sync.RWMutex", "m map[string][]byte"] ∧
+    skel_type_batchedMutations = ["struct", "embedded sync.Mutex", "kvStore *mapDB", "setOperations map[string]kvstore.Value",
+      "deleteOperations map[string]types.Empty", "closed *atomic.Bool"] := by decide
+
+/-! ### Regenerated tie: pinned source text (`Hive/Gen/C05_Src.lean`, regenerated by `harness/c05/srcpin` on every run)
+
+The functions that the model summarises without a lock skeleton of their own. -/
+open Hive.Gen.C05Src
+
+/-- **New objects carry a zero-valued lock.**  `NewMapDB`, `WithRealm` and `Batched` return a struct *literal* that
+names every field except the embedded mutex (which is therefore zero-valued = `RW.free`, the initial state of every
+`LockId` of the model), shares the map and the flag by pointer, and — for a view — differs from its parent only in the
+realm; `WithExtendedRealm` is `WithRealm` of the parent's realm (a copy: `Realm()` concatenates) extended by the
+argument.  A view built by copying the parent struct (`view := *s`) would copy the parent's lock word with it. -/
+theorem C05_source_fresh_objects :
+    src_NewMapDB = ["func NewMapDB() kvstore.KVStore {", "return &mapDB{", "m: &syncedKVMap{m: make(map[string][]byte)},",
+      "closed: new(atomic.Bool),", "}", "}"] ∧
+    src_mapDB_WithRealm = ["func (s *mapDB) WithRealm(realm kvstore.Realm) (kvstore.KVStore, error) {", "if s.closed.Load() {",
+      "return nil, kvstore.ErrStoreClosed", "}", "return &mapDB{", "m: s.m,", "closed: s.closed,", "realm: realm,", "}, nil", "}"] ∧
+    src_mapDB_WithExtendedRealm = ["func (s *mapDB) WithExtendedRealm(realm kvstore.Realm) (kvstore.KVStore, error) {",
+      "return s.WithRealm(byteutils.ConcatBytes(s.Realm(), realm))", "}"] ∧
+    src_mapDB_Realm = ["func (s *mapDB) Realm() kvstore.Realm {", "return byteutils.ConcatBytes(s.realm)", "}"] ∧
+    src_mapDB_Batched = ["func (s *mapDB) Batched() (kvstore.BatchedMutations, error) {", "if s.closed.Load() {",
+      "return nil, kvstore.ErrStoreClosed", "}", "return &batchedMutations{", "kvStore: s,",
+      "setOperations: make(map[string]kvstore.Value),", "deleteOperations: make(map[string]types.Empty),", "closed: s.closed,",
+      "}, nil", "}"] ∧
+    src_mapDB_Flush = ["func (s *mapDB) Flush() error {", "if s.closed.Load() {", "return kvstore.ErrStoreClosed", "}",
+      "return nil", "}"] := by decide
+
+/-- **The flushkv wrapper** (not part of the protocol model; the harness runs half of its histories through it): every
+mutator is "the wrapped store's mutator; if that failed return its error; else `flushAfterMutation`", where
+`flushAfterMutation` returns every error of `Flush()` except ErrStoreClosed (fix b5d5462); readers, `Flush`, `Close`,
+batch `Set/Delete/Cancel` forward; `WithRealm` / `New` / `Batched` wrap without any state of their own (no lock, no flag).
+So a flushkv call is the wrapped call followed by at most one flag-only call whose `closed` answer is dropped — both are
+calls of the model. -/
+theorem C05_source_flushkv :
+    src_flushAfterMutation = ["func flushAfterMutation(store kvstore.KVStore) error {",
+      "if err := store.Flush(); err != nil && !ierrors.Is(err, kvstore.ErrStoreClosed) {", "return err", "}", "return nil", "}"] ∧
+    src_New = ["func New(store kvstore.KVStore) kvstore.KVStore {", "return &flushKVStore{", "store: store,", "}", "}"] ∧
+    src_flushKVStore_WithRealm = ["func (s *flushKVStore) WithRealm(realm kvstore.Realm) (kvstore.KVStore, error) {",
+      "store, err := s.store.WithRealm(realm)", "if err != nil {", "return nil, err", "}", "return &flushKVStore{", "store: store,",
+      "}, nil", "}"] ∧
+    src_flushKVStore_Set = ["func (s *flushKVStore) Set(key kvstore.Key, value kvstore.Value) error {",
+      "if err := s.store.Set(key, value); err != nil {", "return err", "}", "return flushAfterMutation(s.store)", "}"] ∧
+    src_flushKVStore_Delete = ["func (s *flushKVStore) Delete(key kvstore.Key) error {",
+      "if err := s.store.Delete(key); err != nil {", "return err", "}", "return flushAfterMutation(s.store)", "}"] ∧
+    src_flushKVStore_DeletePrefix = ["func (s *flushKVStore) DeletePrefix(prefix kvstore.KeyPrefix) error {",
+      "if err := s.store.DeletePrefix(prefix); err != nil {", "return err", "}", "return flushAfterMutation(s.store)", "}"] ∧
+    src_flushKVStore_Clear = ["func (s *flushKVStore) Clear() error {", "if err := s.store.Clear(); err != nil {", "return err", "}",
+      "return flushAfterMutation(s.store)", "}"] ∧
+    src_flush_batch_Commit = ["func (b *batchedMutations) Commit() error {", "if err := b.batched.Commit(); err != nil {",
+      "return err", "}", "return flushAfterMutation(b.store)", "}"] := by decide
+
+/-- …and everything else of flushkv forwards to the wrapped store. -/
+theorem C05_source_flushkv_forwarders :
+    src_flushKVStore_Get = ["func (s *flushKVStore) Get(key kvstore.Key) (kvstore.Value, error) {", "return s.store.Get(key)", "}"] ∧
+    src_flushKVStore_Has = ["func (s *flushKVStore) Has(key kvstore.Key) (bool, error) {", "return s.store.Has(key)", "}"] ∧
+    src_flushKVStore_Iterate = ["func (s *flushKVStore) Iterate(prefix kvstore.KeyPrefix, consumerFunc kvstore.IteratorKeyValueConsumerFunc, iterDirection ...kvstore.IterDirection) error {",
+      "return s.store.Iterate(prefix, consumerFunc, iterDirection...)", "}"] ∧
+    src_flushKVStore_IterateKeys = ["func (s *flushKVStore) IterateKeys(prefix kvstore.KeyPrefix, consumerFunc kvstore.IteratorKeyConsumerFunc, iterDirection ...kvstore.IterDirection) error {",
+      "return s.store.IterateKeys(prefix, consumerFunc, iterDirection...)", "}"] ∧
+    src_flushKVStore_Flush = ["func (s *flushKVStore) Flush() error {", "return s.store.Flush()", "}"] ∧
+    src_flushKVStore_Close = ["func (s *flushKVStore) Close() error {", "return s.store.Close()", "}"] ∧
+    src_flushKVStore_Batched = ["func (s *flushKVStore) Batched() (kvstore.BatchedMutations, error) {",
+      "batched, err := s.store.Batched()", "if err != nil {", "return nil, err", "}", "return &batchedMutations{", "store: s.store,",
+      "batched: batched,", "}, nil", "}"] ∧
+    src_flush_batch_Set = ["func (b *batchedMutations) Set(key kvstore.Key, value kvstore.Value) error {",
+      "return b.batched.Set(key, value)", "}"] ∧
+    src_flush_batch_Delete = ["func (b *batchedMutations) Delete(key kvstore.Key) error {", "return b.batched.Delete(key)", "}"] ∧
+    src_flush_batch_Cancel = ["func (b *batchedMutations) Cancel() {", "b.batched.Cancel()", "}"] :=
+  ⟨rfl, rfl, rfl, rfl, rfl, rfl, rfl, rfl, rfl, rfl⟩
+
 /-! ### the hypotheses are satisfiable: a concrete run -/
 
 /-- Two goroutines (a writer through the view of realm `01`, a reader through the root view)
@@ -309,6 +458,27 @@ example : (runSched sys (initCfg sampleScripts) sampleSched).1.tr =
 /-- The recorded history of that run and its witness: validated by computation. -/
 example : Lin.validate (histOf (runSched sys (initCfg sampleScripts) sampleSched).1.tr).toArray
     (witness (histOf (runSched sys (initCfg sampleScripts) sampleSched).1.tr)) = true := by
+  decide
+
+/-- A second run, with the calls added in the extension round: goroutine 0 creates a view, writes through it, fills and
+commits a batch; goroutine 1 closes the store and flushes.  The schedule lets goroutine 0 pass its flag load, then goroutine 1 close the store. -/
+def sampleScripts2 : List (List COp) :=
+  [[.withRealm [1], .set 7 [1] [2] [3], .batched, .batchOp 0, .commit 0 7 [1] [([2], some [9])]], [.close, .flush]]
+
+def sampleSched2 : List (Nat × Nat) :=
+  List.replicate 3 (0, 0) ++ List.replicate 3 (1, 0) ++ List.replicate 15 (0, 0) ++ List.replicate 3 (1, 0)
+
+example : Reach sys (initCfg sampleScripts2) (runSched sys (initCfg sampleScripts2) sampleSched2) :=
+  runSched_reach sys _ _
+
+/-- Both goroutines finish; `WithRealm` (before the `Close` point) answers `ok`, everything of goroutine 0 after it and
+the `Flush` of goroutine 1 answer `closed` (the batch-local call answers `ok`: it loads no flag); the witness order of
+`C05_linearizable_close` validates on the recorded history. -/
+example : ((runSched sys (initCfg sampleScripts2) sampleSched2).2.all (fun t => t.cur.isNone && t.script.isEmpty)) = true ∧
+    (runSched sys (initCfg sampleScripts2) sampleSched2).1.tr.filterMap (fun e => match e with | .ret t i o => some (t, i, o) | _ => none) =
+      [(1, 0, .ok), (0, 0, .ok), (0, 1, .closed), (0, 2, .closed), (0, 3, .ok), (0, 4, .closed), (1, 1, .closed)] ∧
+    Lin.validate (histOf (runSched sys (initCfg sampleScripts2) sampleSched2).1.tr).toArray
+      (witness (histOf (runSched sys (initCfg sampleScripts2) sampleSched2).1.tr)) = true := by
   decide
 
 end Hive.KV.Conc
